@@ -413,6 +413,8 @@ HAND_TEXTS = [
     ("root CONNECTIONOPTIONS", '/* above\n   two lines */\nCONNECTIONOPTIONS\n  "k" "v"\nEND\n'),
     ("nested kv blocks", 'LAYER\n  TYPE POINT\n  # m1\n  # m2\n  METADATA\n    "a" "b"\n  END\n  /* v */\n  VALIDATION\n    "k" "v"\n  END\n  # c\n  CONNECTIONOPTIONS\n    "o" "p"\n  END\nEND\n'),
     ("multi-line comment above nested blocks", 'MAP\n  NAME "m" # n\n  /* first\n     second\n       third */\n  LAYER\n    TYPE POINT\n    /* a\n    b */\n    CLASS\n      NAME "c" # cn\n    END\n  END\nEND\n'),
+    ("two comments on one line", 'LAYER\n  /* a */ # b\n  NAME "l" /* c */\n  TYPE POINT /* d */ # e\n  /* f */ /* g */\n  GROUP "g" # h\nEND\n'),
+    ("two comments on one line, multi-line", 'CLASS\n  /* a */ # b\n  NAME "c" /* c1\n   c2 */\n  TITLE "t"\nEND\n'),
     ("values ending in keywords", 'CLASS\n  NAME "x END" # q\n  TITLE legend # r\n  GROUP blend # s\nEND\n'),
 ]
 
